@@ -33,7 +33,7 @@ import (
 const (
 	maxSlots    = 6
 	maxFrames   = 48
-	slotSize    = 1 << 16
+	slotSize    = 1 << 17
 	maxHandlers = 4
 	maxCons     = 3
 )
@@ -460,7 +460,7 @@ func runPipeline(c *simrun.Ctx) *simrun.Violation {
 	nProd := 1 + t.Draw("producers", 3)
 	nCons := 1 + t.Draw("consumers", maxCons)
 	nHand := 1 + t.Draw("handlers", maxHandlers)
-	cfg := simval.GenCfg{MaxDepth: 1 + t.Draw("maxdepth", 2), MaxFields: 2 + t.Draw("maxfields", 6), MaxMapEntries: 2 + t.Draw("maxentries", 4), MaxListLen: 1 + t.Draw("maxlist", 3), Unknown: true, AnyTargets: anyTargets(), InvalidUTF8: t.Chance("allow-invalid-utf8", 1, 4)}
+	cfg := simval.GenCfg{MaxDepth: 1 + t.Draw("maxdepth", 2), MaxFields: 2 + t.Draw("maxfields", 6), MaxMapEntries: 2 + t.Draw("maxentries", 4), MaxListLen: 1 + t.Draw("maxlist", 3), Unknown: true, AnyTargets: anyTargets(), InvalidUTF8: t.Chance("allow-invalid-utf8", 1, 4), Huge: t.Chance("allow-huge", 1, 10), ManyKeys: t.Chance("allow-manykeys", 1, 12)}
 
 	// ---- plan (all draws happen here, before any task runs)
 	plans := make([][]*framePlan, nProd)
@@ -686,6 +686,9 @@ func runPipeline(c *simrun.Ctx) *simrun.Violation {
 					if after := simval.TakeSnapshot(m); before.Hash != after.Hash {
 						lg.errf("C07:read-only-call-changed-the-message-struct|Marshal (api %d) of frame %d (type %s): %v", fp.api, fp.id, mt.Descriptor().FullName(), before.Diff(after))
 					}
+					if where := simval.SharesMemory(m, frame); where != "" {
+						lg.errf("C07:marshal-output-shares-memory-with-the-message|Marshal (api %d) of frame %d (type %s): %s", fp.api, fp.id, mt.Descriptor().FullName(), where)
+					}
 				}
 				if len(frame) > slotSize {
 					lg.notes = append(lg.notes, "frame too large, skipped")
@@ -750,6 +753,11 @@ func runPipeline(c *simrun.Ctx) *simrun.Violation {
 				buf := w.slotBuf(sf.slot, sf.n)
 				msg := corpus[sf.plan.typ].ProtoReflect().Type().New().Interface()
 				err := decodeFrame(buf, msg, sf.plan)
+				if where := simval.SharesMemory(msg, w.slots[sf.slot]); where != "" {
+					// (checked against the whole pool buffer: a view that starts
+					// behind the frame, or has spare capacity there, counts)
+					lg.errf("C07:decoded-message-shares-memory-with-the-input|frame %d type %s: %s", sf.plan.id, msg.ProtoReflect().Descriptor().FullName(), where)
+				}
 				simhook.Yield(-2)
 				if checksum(buf) != sf.sum {
 					lg.errf("C07:unmarshal-modified-its-input|frame %d type %s", sf.plan.id, msg.ProtoReflect().Descriptor().FullName())
